@@ -95,14 +95,27 @@ fn one_case(cx: &mut Ctx, case: &Case, tag: &str) {
         ",",
     );
     let req = format!(
-        "lab {} nout={} attrs={} decl={} id={}",
+        "lab {} nout={} attrs={} decl={} mask={} id={}",
         case.key,
         case.n_out,
         case.sig_text(),
         if decl.is_empty() { "-" } else { &decl },
+        case.mask_text(),
         tag
     );
-    let ans = types_text(&l.labels);
+    let ans = hcommon::join(
+        (0..case.n_out).map(|j| {
+            if !case.used(j) {
+                "-".to_string()
+            } else {
+                l.labels.get(j).copied().flatten().map(vt_name).unwrap_or_else(|| "?".into())
+            }
+        }),
+        ";",
+    );
+    if !case.skip_outs.is_empty() {
+        cx.out.bucket("unconnected_output_pattern");
+    }
     let mut fail: Option<String> = None;
     match &outs {
         Ok(vals) => {
@@ -110,8 +123,10 @@ fn one_case(cx: &mut Ctx, case: &Case, tag: &str) {
             cx.never_ok.remove(&case.key);
             cx.out.bucket("run_ok");
             let in_types: Vec<Option<ValueType>> = case.inputs.iter().map(|i| i.as_ref().map(|i| i.value().dtype())).collect();
+            // `vals` holds the connected outputs in slot order: map them back to their slots
+            let used_slots: Vec<usize> = (0..case.n_out).filter(|&j| case.used(j)).collect();
             let actual: Vec<ValueType> = vals.iter().map(|v| v.dtype()).collect();
-            for (j, a) in actual.iter().enumerate() {
+            for (j, a) in used_slots.iter().copied().zip(actual.iter()) {
                 if let Some(rs) = &l.rules {
                     if let Some(r) = rs.get(j) {
                         match eval_rule(r, &in_types) {
@@ -539,6 +554,34 @@ fn quant_cast_case(cx: &mut Ctx, zp: Dt, to: Dt) {
     castelim_run(cx, &req, &g, feed);
 }
 
+/// `Cast(to)` behind output `slot` of a multi-output operator whose other outputs are unconnected.
+fn multi_cast_case(cx: &mut Ctx, op: &'static str, n_out: usize, slot: usize, actual: Dt, to: Dt) {
+    let outs: Vec<&str> = (0..n_out).map(|j| if j == slot { "m" } else { "" }).collect();
+    let (ins, extra): (Vec<&str>, Option<ValueInfo>) = match op {
+        "TopK" => (vec!["x", "k"], Some(ValueInfo::fixed("k", 7, &[1]))),
+        _ => (vec!["x"], None),
+    };
+    let mut pre = Node::new(op, "pre", &ins, &outs);
+    if op == "Split" {
+        pre = pre.attr("num_outputs", onnx_enc::Attr::Int(n_out as i64)).attr("axis", onnx_enc::Attr::Int(0));
+    }
+    let nodes = vec![
+        pre,
+        Node::new("Cast", "cast", &["m"], &["y"]).attr("to", onnx_enc::Attr::Int(to.onnx() as i64)),
+        Node::new("Identity", "post", &["y"], &["z"]),
+    ];
+    let mut inputs = vec![ValueInfo::fixed("x", actual.onnx(), &[2, 3])];
+    inputs.extend(extra);
+    let g = Graph { nodes, inputs, outputs: vec![ValueInfo::new("z", 0, None)], ..Default::default() };
+    let req = format!("castelim pre={op} decl={} to={} actual={} nout={n_out} slot={slot}", actual.name(), to.name(), actual.name());
+    let mut r = Rng::new(99);
+    let mut feed = vec![("x".to_string(), data(&mut r, actual, &[2, 3]).unwrap().value())];
+    if op == "TopK" {
+        feed.push(("k".to_string(), iv(&[1]).unwrap().value()));
+    }
+    castelim_run(cx, &req, &g, feed);
+}
+
 fn castelim_run(cx: &mut Ctx, req: &str, g: &Graph, feed: Vec<(String, Value)>) {
     let bytes = encode_model(g);
     let res = hcommon::catch(|| {
@@ -602,6 +645,24 @@ fn run(args: &Args) {
             for (vi, var) in dtype_variants(case).iter().enumerate() {
                 one_case(&mut cx, var, &format!("{rep}.{ci}.{vi}"));
             }
+            // every "which outputs are connected" pattern of a multi-output operator
+            if case.n_out >= 2 && case.n_out <= 3 {
+                for m in 1..(1u32 << case.n_out) - 1 {
+                    let mut c = case.clone();
+                    c.skip_outs = (0..case.n_out).filter(|j| m & (1 << j) == 0).collect();
+                    one_case(&mut cx, &c, &format!("{rep}.{ci}.m{m}"));
+                    // and with every dtype of the first input
+                    for dt in ALL_DT {
+                        let mut c2 = c.clone();
+                        if let Some(Some(i0)) = c2.inputs.first_mut().map(|i| i.as_mut()) {
+                            if i0.seq.is_none() {
+                                i0.dt = dt;
+                                one_case(&mut cx, &c2, &format!("{rep}.{ci}.m{m}.{}", dt.name()));
+                            }
+                        }
+                    }
+                }
+            }
         }
     }
     let n_graphs = if args.thorough { 20_000 } else { 2_000 };
@@ -621,6 +682,15 @@ fn run(args: &Args) {
     for zp in [Dt::U8, Dt::I8] {
         for to in ALL_DT {
             quant_cast_case(&mut cx, zp, to);
+        }
+    }
+    for (op, n_out) in [("TopK", 2usize), ("DynamicQuantizeLinear", 3), ("Dropout", 2), ("Split", 2)] {
+        for slot in 0..n_out {
+            for actual in [Dt::F32, Dt::I32] {
+                for to in ALL_DT {
+                    multi_cast_case(&mut cx, op, n_out, slot, actual, to);
+                }
+            }
         }
     }
     let ok_ops: Vec<String> = cx.executed_ok.keys().cloned().collect();
